@@ -27,6 +27,10 @@ CLAIMED = {
          "Machine-checked proof (Coq 8.16): for ANY nesting depth and nil/non-nil combination per layer, each unary (stream) call passes through the unary (stream) interceptor of every layer that has one exactly once, outermost first, and then reaches the base with method, request and options unchanged; layers without an interceptor of that kind are skipped; no interceptors returns the original channel, otherwise unwrapping yields the wrapped one; the connection argument is the base's *grpc.ClientConn at every depth (the immediate-type-assertion variant is refuted at depth 2). Tied to the code by interpreting random client-interceptor scripts on both sides over depth 0-4 stacks on a recording channel, an in-process channel and a real (lazily dialled) *grpc.ClientConn, comparing event log, options seen at the base, results, identity of cc and of Unwrap().",
          "Trusted: Coq kernel; stream creation is modelled with the same routing shape as unary calls (the 'request' of a stream is a value carried in the context).",
          "7/C17"),
+ "C19": ("Coq induction over arbitrary method lists (stream index = position among the streaming methods) + the built plugin binary run on random file descriptors with the emitted Go parsed and compared, and byte-identical regeneration of the checked-in stubs",
+         "Machine-checked proof (Coq 8.16): for any number and interleaving of unary/server-/client-/bidi-streaming methods the stub of each method carries the path /<full service>/<method>, the call shape of its flags, and for streaming methods an index that selects that very method among the service's streaming methods in declaration order (counter invariant by induction); one registration function per service bound to its own description; every service counts its streams from zero. Tied to the code by building protoc-gen-grpchan from /repo on every run, feeding it CodeGeneratorRequests for random descriptors (0-4 services, 0-12 methods, snake/camel names, nested packages, imported types, the option matrix), parsing each emitted file with go/parser and comparing the extracted (register function, description, path, shape, Streams[i]) tuples with the model and with a position-based specification; regenerating grpchantesting/test.proto must reproduce test.pb.grpchan.go byte for byte.",
+         "Trusted: Coq kernel; the AST extraction in the harness; CamelCase naming comes from the plugin's own name library; template rendering/gopoet are observed through the AST, not modelled; 'valid Go' is go/parser acceptance (type-checking would need protoc-gen-go output); the layout of ServiceDesc.Streams by the standard generator (declaration order of streaming methods) is an assumption about protoc-gen-go-grpc.",
+         "7/C19"),
  "C14": ("Coq theorems over tables regenerated from codes.go by a Go-AST translator + exhaustive differential/correspondence run",
          "Machine-checked proof (Coq 8.16): the code->HTTP and HTTP->code tables and the renderer guard are regenerated from /repo's source on every run and the theorems (documented table, error status for every non-OK code over all of Z, the 499 rule, recovery of every uint32 code through the %d/ParseInt/int32 round trip, OK iff 2xx for every integer status) are re-proved against them; the hand-written glue (header precedence) is tied to the code by running real server, real client and loopback end-to-end calls on all codes 0..40, boundary and random uint32 codes, and all HTTP statuses 100..599.",
          "Trusted: Coq kernel; the go2coq translator (differentially tested on every run against the real functions); the model of fmt %d / strconv.ParseInt (lib/Dec.v); net/http's handling of the status header on loopback is observed, not proved.",
